@@ -1,9 +1,91 @@
 import KG.Base.Json
-/-! Driver entry points for property C07 (filled in by the C07 model). -/
+import KG.Model.Alloc
+/-! Driver entry points for C07 (global allocation). -/
 namespace KG.Driver.C07
-open Lean
+open Lean KG KG.Model.Alloc
 
-/-- `handle method args`: `none` when the method is unknown. -/
-def handle (_m : String) (_a : Json) : Option (Except String Json) := none
+def decodeIn (a : Json) : Except String In := do
+  pure { total := ← J.getInt a "total", totalBurst := ← J.getInt a "totalBurst", allocated := ← J.getInt a "allocated",
+         upstreamLevel := ← J.getInt a "upstreamLevel", current := ← J.getInt a "current", used := ← J.getInt a "used",
+         level := ← J.getInt a "level", clients := ← J.getInt a "clients", tokenBucket := ← J.getBool a "tokenBucket" }
+
+def encRes : Except Err (Int × Int) → Json
+  | .ok (n, b) => J.obj [("next", J.int n), ("burst", J.int b)]
+  | .error _ => J.obj [("panic", Json.str "integer divide by zero")]
+
+/-- `C07.next`: the Float twin (compared with Go), the exact-arithmetic answer, and whether they differ
+    (rounding-sensitive input; reported, never alarmed). -/
+def doNext (a : Json) : Except String Json := do
+  let i ← decodeIn a
+  let f := calcNextQuota (F := Float) i
+  let r := calcNextQuota (F := Rat) i
+  pure <| J.obj [("float", encRes f), ("rat", encRes r)]
+
+/-- `C07.judge {total,totalBurst,allocated,current,next,burst,tokenBucket}`: the theorems' conclusions as a decidable
+    predicate evaluated on an observed answer: range, sum safety, no growth, burst bound. -/
+def doJudge (a : Json) : Except String Json := do
+  let T ← J.getInt a "total"; let B ← J.getInt a "totalBurst"; let A ← J.getInt a "allocated"
+  let c ← J.getInt a "current"; let n ← J.getInt a "next"; let b ← J.getInt a "burst"
+  let tb ← J.getBool a "tokenBucket"
+  let range := decide (1 ≤ n) && decide (n ≤ T)
+  let sumSafe := decide (T < A) || decide (n = 1) || decide (A - c + n ≤ T)
+  let noGrowth := decide (A ≤ T) || decide (n = 1) || decide (n < c)
+  let burstOk := !tb || (decide (b ≤ B) && decide (0 ≤ b))
+  pure <| J.obj [("range", J.bool range), ("sumSafe", J.bool sumSafe), ("noGrowth", J.bool noGrowth),
+                 ("burst", J.bool burstOk)]
+
+def decodeOp (j : Json) : Except String HOp := do
+  match ← J.getStr j "op" with
+  | "report" =>
+    let claim := match J.optObj j "claim" with
+      | some v => v.getInt?.toOption
+      | none => none
+    pure (.report (← J.getNat j "i") claim (← J.getInt j "used") (← J.getInt j "level"))
+  | "delete" => pure (.delete (← J.getNat j "i"))
+  | "setLimit" => pure (.setLimit (← J.getInt j "t") (← J.getInt j "b"))
+  | "clients" => pure (.clients (← J.getInt j "n"))
+  | o => throw s!"unknown op {o}"
+
+def digest (s : HSrv) : Json :=
+  let qs := (s.insts.map fun x => (x.id, x.quota, x.burst)).toArray.qsort (fun a b => a.1 < b.1)
+  J.obj [("recSum", J.int s.recSum), ("recLevel", J.int s.recLevel),
+         ("quotas", Json.arr (qs.map fun (i, q, b) => Json.arr #[J.nat i, J.int q, J.int b]))]
+
+/-- `C07.history {total,totalBurst,tokenBucket,clients,ops}`: per op the answer and the recorded state afterwards,
+    plus the invariant judge (`invB`, proved equivalent to `Props.C07.Inv`) on the model's own state. -/
+def doHistory (a : Json) : Except String Json := do
+  let ops ← (← J.getArr a "ops").toList.mapM decodeOp
+  let mut s : HSrv := { total := ← J.getInt a "total", totalBurst := ← J.getInt a "totalBurst",
+                        tokenBucket := ← J.getBool a "tokenBucket", recSum := 0, recLevel := 0,
+                        clients := ← J.getInt a "clients", insts := [] }
+  let mut outs : Array Json := #[]
+  for op in ops do
+    match hstep s op with
+    | .error _ =>
+      outs := outs.push (J.obj [("panic", Json.str "integer divide by zero")])
+    | .ok (s', out) =>
+      s := s'
+      let o := match out with
+        | some (n, b) => J.obj [("next", J.int n), ("burst", J.int b), ("state", digest s)]
+        | none => J.obj [("state", digest s)]
+      outs := outs.push o
+  pure (Json.arr outs)
+
+/-- `C07.inv {total,recSum,quotas:[[i,q],…]}`: the history invariant on an observed recorded state -/
+def doInv (a : Json) : Except String Json := do
+  let qs ← (← J.getArr a "quotas").toList.mapM fun p => do
+    let arr ← p.getArr?
+    match arr.toList with
+    | [i, q] => pure ((← i.getNat?), (← q.getInt?))
+    | _ => throw "bad quota pair"
+  pure (J.bool (invB { total := ← J.getInt a "total", recSum := ← J.getInt a "recSum", quotas := qs }))
+
+def handle (m : String) (a : Json) : Option (Except String Json) :=
+  match m with
+  | "next" => some (doNext a)
+  | "judge" => some (doJudge a)
+  | "history" => some (doHistory a)
+  | "inv" => some (doInv a)
+  | _ => none
 
 end KG.Driver.C07
